@@ -40,12 +40,12 @@ theorem kind_of_plainTree {skip : List Bytes} {fs : FS} {t : XTree} (h : TreeOK 
     (fs.ino i).kind = .dir ∨ (fs.ino i).kind = .reg := by
   have hnode := hrep k hk
   simp only [FS.node?, hi] at hnode
-  rcases h.kinds k i hi with ⟨hd, _⟩ | ⟨_, hnl, _, _⟩
+  rcases h.kinds k i hi with ⟨hd, _⟩ | ⟨_, _, _⟩
   · exact Or.inl hd
   · rcases hpt k _ hnode.symm with hx | ⟨d, hx⟩
     · exact Or.inl ((inoNode_dir_iff _).1 hx)
     · right
-      cases hkk : (fs.ino i).kind <;> simp [inoNode, hkk] at hx hnl ⊢
+      cases hkk : (fs.ino i).kind <;> simp [inoNode, hkk] at hx ⊢
 
 /-- walkTo in create mode along a path with a regular file in it: it fails,
     or (when the file is the last element) arrives at that file. -/
@@ -215,14 +215,10 @@ theorem add_member_fail (fuel : Nat) {fs : FS} {t : XTree} {init : List Bytes} {
     (h : TreeOK [] fs) (hrep : Rep [] fs t) (hpt : PlainTree t)
     (hg : GoodComps (init ++ [c])) (hu : ∀ x ∈ init ++ [c], ValidU x)
     (hfresh : fs.get? (joinSlash (init ++ [c])) = none)
-    (hleaf : LeafIno ino) (hxl : ino.kind = .sym → Contained ino.link)
+    (hleaf : LeafIno ino) (hxl : (ino.kind = .sym ∨ ino.kind = .link) → Contained ino.link)
     (hx : xMkdirs t (prefixesAux [] true init) = none) :
     ∃ fs' hl' e, add (fuel + 2) fs hl (joinSlash (init ++ [c])) ino u = (fs', hl', some e) := by
   have hnc : Contained (joinSlash (init ++ [c])) := contained_joinSlash (by simp) hg hu
-  have hnl : ino.kind ≠ .link := by
-    rcases hleaf with ⟨hk, _⟩ | ⟨_, hk, _⟩
-    · simp [hk]
-    · exact hk
   have hleaf' : LeafIno { ino with name := joinSlash (init ++ [c]) } := hleaf
   have h1 := h.pend hnc hfresh (x := { ino with name := joinSlash (init ++ [c]) }) rfl hleaf' hxl
   have hrep1 : Rep [joinSlash (init ++ [c])] (fs.pend (joinSlash (init ++ [c])) { ino with name := joinSlash (init ++ [c]) }) t := by
@@ -331,7 +327,7 @@ theorem member_fail (m : Member) (ms : List Member) (fs : FS) (t : XTree)
         | none =>
           obtain ⟨fs', hl', e, hadd⟩ := add_member_fail 4094 (fs := fs) (t := t)
             (ino := { kind := .reg, name := joinSlash (init ++ [c]), link := m.link, children := none, data := some m.data })
-            [] true h hrep hpt hg hu hget? (Or.inr ⟨by simp, by simp, rfl, fun _ => ⟨m.data, rfl⟩⟩) (by simp) hA
+            [] true h hrep hpt hg hu hget? (Or.inr ⟨by simp, rfl, fun _ => ⟨m.data, rfl⟩⟩) (by simp) hA
           refine ⟨e, ?_⟩
           rw [addMembers, hprep]
           simp only
